@@ -77,11 +77,16 @@ def run_nndvi(fam, cfg, batches, seeds, extra=None):
     det = fam.make(cfg)
     np.random.seed(seeds[0]); det.set_reference(batches[0].copy())
     states, dists = [], []
+    once = (extra or {}).get("seed_once")      # the caller seeds numpy once per run, not before every call
     for b, s in zip(batches[1:], seeds[1:]):
         ref = np.array(det.reference_batch)
+        st = np.random.get_state()
         p = NNSpacePartitioner(cfg["k_nn"]); p.build(ref, b)
         dists.append(float(NNSpacePartitioner.compute_nnps_distance(p.nnps_matrix, p.v1, p.v2)))
-        np.random.seed(s); det.update(b.copy())
+        np.random.set_state(st)                # the harness' own recomputation must not move the stream the detector draws from
+        if not once:
+            np.random.seed(s)
+        det.update(b.copy())
         states.append(det.drift_state)
     return states, dists
 
@@ -128,6 +133,13 @@ def run(ctx):
                 ctx.count(f"{name}:huge-reference-cases")
             runner = {"HDDDM": run_hdm, "CDBD": run_hdm, "KdqTreeBatch": run_kdq, "NNDVI": run_nndvi}[name]
             extra0 = {}
+            if name == "NNDVI" and k % 2 == 1:
+                # a log replayed from its start: the first test batch IS the reference (in the permuted run: the same rows in another
+                # order), numpy seeded once for the whole run -- how many random numbers an update consumes must not depend on row order
+                batches = [batches[0], batches[0].copy()] + list(batches[1:])
+                seeds = [seeds[0], seeds[0] + 1] + list(seeds[1:])
+                extra0["seed_once"] = True
+                ctx.count(f"{name}:replayed-reference-seeded-once")
             if name in ("HDDDM", "CDBD") and k % 3 == 1:
                 extra0["frame_style"] = 1 + (k // 3) % 3
                 ctx.count(f"{name}:frames-with-repeated-or-shifted-row-labels")
